@@ -544,7 +544,8 @@ func checkC15(c *Ctx) int {
 	run.Set("table_rows", len(rows))
 	run.Set("arbitrary_string_classes", len(arbs))
 	run.Set("format_payload_combinations", len(tasks))
-	run.Set("rule", "TLC model-checks specs/Envelope.tla (behaviours Serialize -> at most one Damage -> Deserialize over payload class x {none,snappy,lz4,gzip:-1/1/6/9} x {none,crc32} x uncompress?, and arbitrary strings over compression bits x checksum bits x tail class), checks the C15 claims on the intended decoder and prints one table row (region layout, damaged region, outcome class) per behaviour; the byte-level for-all is beyond TLC, so the harness expands each row into seeded concrete payloads and into EVERY byte position of the damaged region (all 8 bit flips, two substitutions, every truncation length) when the serialized value has <= "+fmt.Sprint(allLimit)+" bytes, region edges + seeded positions otherwise, and requires the outcome of the real dvid.SerializeData / SerializePrecompressedData / DeserializeData to lie in the row's class. evaluations = concrete DeserializeData calls; distinct_nontrivial = distinct (table row, payload variant, position class first/inner/last of the region) resp. (arbitrary class, sample)")
+	c15History(c, run, nodes[0])
+	run.Set("rule", "TLC model-checks specs/Envelope.tla (behaviours Serialize -> at most one Damage -> Deserialize over payload class x {none,snappy,lz4,gzip:-1/1/6/9} x {none,crc32} x uncompress?, and arbitrary strings over compression bits x checksum bits x tail class), checks the C15 claims on the intended decoder and prints one table row (region layout, damaged region, outcome class) per behaviour; the byte-level for-all is beyond TLC, so the harness expands each row into seeded concrete payloads and into EVERY byte position of the damaged region (all 8 bit flips, two substitutions, every truncation length) when the serialized value has <= "+fmt.Sprint(allLimit)+" bytes, region edges + seeded positions otherwise, and requires the outcome of the real dvid.SerializeData / SerializePrecompressedData / DeserializeData to lie in the row's class. evaluations = concrete DeserializeData calls; In addition every call sequence of specs/EnvelopeHistory.tla (all sequences of 3 (thorough 4) calls over {serialize, deserialize, deserialize raw} x 4 compressions) is executed holding the returned slices themselves, and after every call each held result must still equal what was returned. distinct_nontrivial = distinct (table row, payload variant, position class first/inner/last of the region) resp. (arbitrary class, sample)")
 	run.Assume = []string{
 		"checksum modelled as ideal (matches iff stored field and covered bytes intact); for CRC-32 this is exact for single-bit and single-byte changes and fails with probability 2^-32 for truncations",
 		"gzip values read without decompression are outside the corruption claim (the envelope checksum is dropped by design and gzip's own CRC is only verified on decompression)",
